@@ -958,6 +958,8 @@ func init() {
 		checkValueLookup(r, prog, a, "c05") // consumption: gateway Config and the unknown-value branch
 		r.importing = "C11"
 		checkBudgetTransport(r, prog, a, prog.GrammarSSA.Func("newParser"), prog.GrammarSSA.Func("MaxExpressions"), "c11")
+		r.importing = "C11"
+		checkBudget(r, prog, a, "c11") // the budget option does its own job: what it is given is what the parser counts against
 		r.importing = "C10"
 		checkRecoverDiscipline(r, prog, "c10") // a budget that is exceeded ends the creation with an error: the abort is recovered, by default
 		r.importing = ""
